@@ -1,5 +1,6 @@
 import MobiusModel.Presence
 import MobiusModel.PresenceAbort
+import MobiusModel.PresenceTeardown
 import MobiusModel.Generated.Consts
 import MobiusModel.Generated.Recover
 import MobiusModel.Generated.Concurrency
@@ -398,5 +399,76 @@ example : ((PresWorld.init.afterX abortDemo).step (loginEv [3] [65] noAny (some 
 example : ((PresWorld.init.afterX abortDemo).step (loginEv [3] [65] acc (some []) [0, 3])).2 = [] := by decide +kernel
 example : ((PresWorld.init.afterX abortDemo).step (loginEv [3] [65] acc (some []) [0, 3])).1.userList.map (·.id) = [1, 2, 3] := by
   decide +kernel
+
+-- ------------------------------------------------------------------ wave e: faults at connection teardown
+
+/-- The body of `Disconnect` is the three calls in this order (regenerated from source): the table removal and the
+    choice of the audience come before `Connection.Close`, whose outcome therefore cannot influence them. -/
+theorem generated_disconnect_prog :
+    Generated.disconnectCalls.filterMap tdCallOfName = disconnectProg ∧
+    Generated.disconnectCalls.length = disconnectProg.length := by decide
+
+/-- `teardown_independent_of_close`: whatever `Connection.Close()` reports — and even for a body that gives up when it
+    fails — the world after `Disconnect` and the notices it queued are those of `presDisconnect` (the same function for
+    every close result); Close is called exactly once; a failure is logged. -/
+theorem teardown_independent_of_close (w : PresWorld) (c : Client) (cr cr' : CloseRes) (retOnErr : Bool) :
+    presTeardown w c cr = presDisconnect w c ∧ presTeardown w c cr = presTeardown w c cr' ∧
+    ((tdRun disconnectProg c cr retOnErr w).w, (tdRun disconnectProg c cr retOnErr w).outs) = presDisconnect w c ∧
+    (tdRun disconnectProg c cr retOnErr w).closeCalls = 1 ∧
+    (tdRun disconnectProg c cr retOnErr w).logged = (cr == .err) :=
+  ⟨presTeardown_eq_disconnect w c cr, by rw [presTeardown_eq_disconnect, presTeardown_eq_disconnect],
+   (tdRun_close_last w c cr retOnErr).1, (tdRun_close_last w c cr retOnErr).2, tdRun_logs_failure w c cr retOnErr⟩
+
+/-- A session that ends with a failing Close tells everybody remaining, and nobody fetches the leaver afterwards:
+    `Outcome` (user left, every remaining user sent the notice) for every close result. -/
+theorem teardown_outcome (w : PresWorld) (a : Nat) (c : Client) (cr : CloseRes) (hg : w.reg.get a = some c) :
+    Outcome w c (w.stepT (.teardown a cr)).1 (w.stepT (.teardown a cr)).2 := by
+  rw [PresWorld.stepT_eq]
+  exact Mobius.request_outcome w (.ok (.disconnect a)) a c rfl hg
+
+/-- Histories in which every departure carries a close outcome are histories of `ReachX` with the outcomes erased:
+    same worlds, same outputs. -/
+theorem teardown_history_erases (w : PresWorld) (qs : List PresReqT) :
+    w.runT qs = w.runX (qs.map PresReqT.erase) := PresWorld.runT_eq w qs
+
+/-- `Presence.converges` / `never_wrong` over histories with failing closes (`ReachT`). -/
+theorem Presence.converges_with_close_faults (w : PresWorld) (h : w.ReachT) (hsettled : ∀ d ∈ w.reg.clients, d.announced = true)
+    (c : Client) (hc : c ∈ w.reg.clients) (r : List Entry) (hv : w.view c.conn = some r) : r = w.userList :=
+  Presence.converges_with_aborts w h.toX hsettled c hc r hv
+
+theorem Presence.never_wrong_with_close_faults (w : PresWorld) (h : w.ReachT) (c : Client) (hc : c ∈ w.reg.clients)
+    (r : List Entry) (hv : w.view c.conn = some r) :
+    (∀ e ∈ r, e ∈ w.userList) ∧ (∀ d ∈ w.reg.clients, d.announced = true → entryOf d ∈ r) :=
+  Presence.never_wrong_with_aborts w h.toX c hc r hv
+
+private def tdDemo : List PresReqT :=
+  [.base (.ok (.connect [1] [65] acc [0, 0])), .base (.ok (.agreed 1 5 (some [0x61]) (some [0, 7]) 0 none)), .base (.ok (.fetch 1 6)),
+   .base (.ok (.connect [2] [66] acc [0, 0])), .base (.ok (.agreed 2 7 (some [0x62]) (some [0, 9]) 0 none)), .base (.ok (.fetch 2 8))]
+
+private def tdWorld : PresWorld := (PresWorld.init.runT tdDemo).1
+private def tdLeaver : Client := ⟨2, 1, [2], [66], acc, [0x62], [0, 9], 0, [], true⟩
+
+-- non-vacuity: two users hold each other in their rosters; user 2's Close FAILS: user 1 is sent the notice, the table
+-- drops user 2, user 1's roster is the fresh list again, the failure is logged
+example : tdWorld.reg.get 2 = some tdLeaver := by decide +kernel
+example : (tdWorld.stepT (.teardown 2 .err)).2.map (fun p => (p.1.to, p.2)) = [(1, Note.left 2)] := by decide +kernel
+example : (tdWorld.stepT (.teardown 2 .err)).1.view 0 = some (tdWorld.stepT (.teardown 2 .err)).1.userList ∧
+          (tdWorld.stepT (.teardown 2 .err)).1.userList.map (·.id) = [1] := by decide +kernel
+example : (tdRun disconnectProg tdLeaver .err false tdWorld).logged = true ∧
+          (tdRun disconnectProg tdLeaver .err false tdWorld).closeCalls = 1 := by decide +kernel
+
+/-- The other arrangement (Close BEFORE the notices, the body left when Close fails — seeded change C13e-2) does
+    depend on the close outcome: with a clean Close it behaves like the code, with a failing one the user is out of the
+    table, nobody is told, and a settled roster that equalled the list before keeps the departed user. -/
+theorem close_first_returning_loses_notices :
+    ∃ (w : PresWorld) (c : Client) (k : Nat),
+      w.reg.get c.id = some c ∧ w.view k = some w.userList ∧ (∀ d ∈ w.reg.clients, d.announced = true) ∧
+      ((tdRun [.delete, .close, .notify] c .ok true w).w, (tdRun [.delete, .close, .notify] c .ok true w).outs) = presDisconnect w c ∧
+      (tdRun [.delete, .close, .notify] c .err true w).outs = [] ∧
+      (presDisconnect w c).2 ≠ [] ∧
+      (tdRun [.delete, .close, .notify] c .err true w).w.view k ≠ some (tdRun [.delete, .close, .notify] c .err true w).w.userList :=
+  ⟨tdWorld, tdLeaver, 0, by decide +kernel, by decide +kernel, by decide +kernel, by decide +kernel, by decide +kernel,
+   by decide +kernel, by decide +kernel⟩
+
 
 end Mobius.C13
